@@ -22,7 +22,7 @@ def _hs():
     hs.append(H("c15::c15_counter_monotone", desc="ErrorCounter counts exactly the writes that met a full queue (two clones, "
                 "write and write_all); accepted write leaves it unchanged", sym="line byte"))
     hs.append(H("c15::c15_reach", kind="reach", desc="vacuity twin"))
-    # recorded-not-repaired role (KNOWN_FINDINGS.txt): asserted on every run, so a repair shows up as a stale entry
+    # formerly a finding (KNOWN_FINDINGS.txt `fixed:` line, /repo 87b937a): must hold on the current tree
     hs.append(H("c15::c15_flush_fault_at_shutdown", kind="finding", role=ROLE,
                 desc="a failed flush in the batch that took Msg::Shutdown must still end the worker (strong form of the "
                      "shutdown clause)", sym="which flush fails, line byte"))
@@ -55,9 +55,7 @@ SPEC = {
                "harness, its time-out branches are not explored: a full queue at guard drop is treated as 'the guard is dropped "
                "later'); thread spawn and the closure of worker_thread (its 3-arm loop is transcribed in the harness); writes "
                "offered after the guard was dropped; more than 3 lines / 2 producers / capacity > 2; real crossbeam-channel "
-               "(proof is relative to the shim contract: bounded FIFO, try_send fails iff full); panics inside the writer; "
-               "a failed flush in the batch that took Msg::Shutdown (recorded role flush_fault_swallows_shutdown: the worker "
-               "then never reports Shutdown; the line/loss/flush clauses are still asserted on that path)",
+               "(proof is relative to the shim contract: bounded FIFO, try_send fails iff full); panics inside the writer",
     "stubs": ["std::rt::thread_cleanup -> no-op", "core::fmt::write -> Ok(())",
               "crossbeam-channel -> /verif/shims/crossbeam-channel (sequential contract model, yield callback before every "
               "receiver operation, control block in a static)",
